@@ -69,3 +69,31 @@ package cfevesting
 //@   invariant 0 <= i && i <= len(allAccountVestingPools) && genesis != nil && genesis.Params.Denom == $vestingDenom && exportedTypesOK(genesis)
 //@   invariant len(genesis.AccountVestingPools) == i && off(genesis.AccountVestingPools) == 0
 //@   invariant forall j: int :: {genesis.AccountVestingPools[j]} 0 <= j && j < i ==> genesis.AccountVestingPools[j] != nil && poolsStored(genesis.AccountVestingPools[j])
+
+//@ // ---- C05 at genesis: import accepts only a state whose module account is exactly backed by the pools it brings ----
+//@ // currently locked amount (initially locked - sent - withdrawn) of the first n pools of one owner's pool list
+//@ // (ptrs: the list's row of pool pointers, o: its offset; il / s / w: the VestingPool columns)
+//@ spec func sumPoolsLocked(ptrs [int]int, o int, il [int]int, s [int]int, w [int]int, n int) int =
+//@   n <= 0 ? 0 : sumPoolsLocked(ptrs, o, il, s, w, n - 1) + il[ptrs[o + n - 1]] - s[ptrs[o + n - 1]] - w[ptrs[o + n - 1]]
+//@ // ... summed over the first n owners of the genesis list (optrs / oo: the row of AccountVestingPools pointers and its offset;
+//@ // vpArr / vpOff / vpLen: the VestingPools slice columns; rows: all pool-pointer rows)
+//@ spec func sumOwnersLocked(optrs [int]int, oo int, vpArr [int]int, vpOff [int]int, vpLen [int]int, rows [int][int]int, il [int]int, s [int]int, w [int]int, n int) int =
+//@   n <= 0 ? 0 : sumOwnersLocked(optrs, oo, vpArr, vpOff, vpLen, rows, il, s, w, n - 1)
+//@     + sumPoolsLocked(rows[vpArr[optrs[oo + n - 1]]], vpOff[optrs[oo + n - 1]], il, s, w, vpLen[optrs[oo + n - 1]])
+//@ pred genesisLockedSum(avps, n) = sumOwnersLocked(elemRow(avps), off(avps), heapOf("types.AccountVestingPools", "VestingPools.arr"),
+//@     heapOf("types.AccountVestingPools", "VestingPools.off"), heapOf("types.AccountVestingPools", "VestingPools.len"), rowsOf("*types.VestingPool"),
+//@     heapOf("types.VestingPool", "InitiallyLocked"), heapOf("types.VestingPool", "Sent"), heapOf("types.VestingPool", "Withdrawn"), n)
+//@ pred onePoolListLockedSum(avp, n) = sumPoolsLocked(elemRow(avp.VestingPools), off(avp.VestingPools),
+//@     heapOf("types.VestingPool", "InitiallyLocked"), heapOf("types.VestingPool", "Sent"), heapOf("types.VestingPool", "Withdrawn"), n)
+//@ pred genesisPoolsWellFormed(avps) = forall i: int :: {avps[i]} 0 <= i && i < len(avps) ==> avps[i] != nil
+//@     && (forall j: int :: {avps[i].VestingPools[j]} 0 <= j && j < len(avps[i].VestingPools) ==> avps[i].VestingPools[j] != nil
+//@        && !avps[i].VestingPools[j].InitiallyLocked.IsNil() && !avps[i].VestingPools[j].Sent.IsNil() && !avps[i].VestingPools[j].Withdrawn.IsNil())
+//@ func ValidateAccountsOnGenesis(ctx, k, genState, ak, bk, sk) (err)
+//@   requires genesisPoolsWellFormed(genState.AccountVestingPools)
+//@   ensures [backed] err == nil ==> $bal[modaddr("cfevesting")][genState.Params.Denom] == genesisLockedSum(genState.AccountVestingPools, len(genState.AccountVestingPools))
+//@   prop C05 C12
+//@ loop ValidateAccountsOnGenesis#1
+//@   invariant 0 <= \i && \i <= len(accsVestingPools) && !vestingPoolsAmount.IsNil() && vestingPoolsAmount == genesisLockedSum(accsVestingPools, \i)
+//@ loop ValidateAccountsOnGenesis#2
+//@   invariant 0 <= \i && \i <= len(accVestingPools.VestingPools) && !vestingPoolsAmount.IsNil()
+//@   invariant vestingPoolsAmount == genesisLockedSum(accsVestingPools, \o) + onePoolListLockedSum(accVestingPools, \i)
